@@ -190,6 +190,7 @@ def run_check(prop, tier, seed=0):
                         for k, o2 in v2[rid].items():
                             c1._add(rid, k[len(rid) + 1:] if k.startswith(rid + ":") else k, "violation", o2["where"], o2["detail"])
             except Exception:
+                if os.environ.get('AXV_DEBUG'): traceback.print_exc()
                 pass        # the inlined evaluation is an attempt to discharge, never a source of alarms
             finally:
                 for x in qprogs.values():
